@@ -81,6 +81,8 @@ public:
     using CodePrinter::bvisit;
     using CodePrinter::str_;
     void bvisit(const Infty &x);
+    void bvisit(const Gamma &x);
+    void bvisit(const LogGamma &x);
     void _print_pow(std::ostringstream &o, const RCP<const Basic> &a,
                     const RCP<const Basic> &b) override;
 };
